@@ -11,7 +11,7 @@ OPTS_ALL = [(nd, a, d) for nd in range(7) for a in (0, 1) for d in (0, 1)]
 FOCI = ["mixed", "grad", "stroke", "paint", "clip", "struct"]
 
 
-def sources(tier, wd, out, per_focus_quick=250, per_focus_thorough=4000, foci=FOCI):
+def sources(tier, wd, out, per_focus_quick=250, per_focus_thorough=1200, foci=FOCI):
     """[(name, svg_text, adoc or None)]"""
     res = []
     n = per_focus_quick if tier == "quick" else per_focus_thorough
@@ -118,7 +118,7 @@ def cli_record(job):
     return rec, text
 
 
-def run_structural(out, prop, tier, okverdicts, rule, classify, foci=FOCI, nq=250, nt=4000):
+def run_structural(out, prop, tier, okverdicts, rule, classify, foci=FOCI, nq=250, nt=1200):
     wd = common.workdir(prop.lower())
     try:
         srcs = sources(tier, wd, out, nq, nt, foci)
